@@ -406,7 +406,9 @@ class C18(Prop):
                     src = to_source(p, lay)
                 except Exception:  # noqa: BLE001
                     return res
-                for default in ("+", "-", "~"):
+                # the trimming environments go first: the verbatim clause for '+' must hold whatever other
+                # environments did with the same text chunks before
+                for default in ("-", "~", "+"):
                     for suppress in (False, True):
                         if name.startswith(("seed", "enum")) and (default != "+" and suppress):
                             continue  # keep the cost bounded: full config grid for uniform assignments only
@@ -437,6 +439,22 @@ class C18(Prop):
                                 res.fail("verbatim", f"not-verbatim:{self._culprit(p)}",
                                          f"{name}/{default}: got {out[1]!r} want {want!r}; src={src!r}")
                                 return res
+            if case["kind"] == "static":
+                # ... and still is after trimming environments have rendered the very same text chunks
+                for name, p in variants:
+                    if name != "allnone" or outs.get((name, "+", False), ("err",))[0] != "ok":
+                        continue
+                    src = to_source(p, lay)
+                    env = make_env({}, shopify=True, default_trim="+", suppress=False)
+                    again = env.from_string(src).render(**data)
+                    res.evaluations += 1
+                    want = model_render(p, "+")
+                    if again != want:
+                        res.fail("verbatim", f"not-verbatim-after-other-environments:{self._culprit(p)}",
+                                 f"allnone/+ rendered again after '-' and '~' environments: got {again!r} want "
+                                 f"{want!r}; src={src!r}")
+                        return res
+                    res.labels.append("verbatim-again")
             res.nontrivial = len(raw_outputs) >= 2 and self._has_nested_ws(prog)
         except RecursionError:
             pass
